@@ -74,8 +74,8 @@ class Module:
             base = Ty('struct', fields=fs, packed=packed)
         elif t.startswith('opaque'): base, t = Ty('opaque'), t[6:]
         elif t.startswith('...'): base, t = Ty('varargs'), t[3:]
-        elif t.startswith('double'): base, t = Ty('fp'), t[6:]
-        elif t.startswith('float'): base, t = Ty('fp'), t[5:]
+        elif t.startswith('double'): base, t = Ty('fp', bits=64), t[6:]
+        elif t.startswith('float'): base, t = Ty('fp', bits=32), t[5:]
         elif t.startswith('ptr'): base, t = Ty('ptr', el=Ty('int', bits=8)), t[3:]
         else: raise Unsupported('type %r' % t[:40])
         while True:
@@ -102,6 +102,7 @@ class Module:
     def sizeof(s, ty):
         ty = s.res(ty)
         if ty.k == 'int': return max(1, (ty.bits + 7) // 8)
+        if ty.k == 'fp': return ty.bits // 8
         if ty.k == 'ptr': return 8
         if ty.k == 'arr': return ty.n * s.sizeof(ty.el)
         if ty.k == 'struct': return s.layout(ty)[1]
@@ -110,6 +111,7 @@ class Module:
     def alignof(s, ty):
         ty = s.res(ty)
         if ty.k == 'int': return min(8, max(1, (ty.bits + 7) // 8))
+        if ty.k == 'fp': return ty.bits // 8
         if ty.k == 'ptr': return 8
         if ty.k == 'arr': return s.alignof(ty.el)
         if ty.k == 'struct': return 1 if ty.packed else max([s.alignof(f) for f in ty.fields] or [1])
@@ -179,9 +181,10 @@ class V:
     """integer of some bit width held as its unsigned residue: e = z3 Int, [lo,hi] sound interval;
     cs = (frozenset of possible constants, may_be_something_else) or None - a small-set refinement used to
     prune candidate offsets of symbolic memory accesses"""
-    __slots__ = ('e', 'lo', 'hi', 'cs', 'br')
+    __slots__ = ('e', 'lo', 'hi', 'cs', 'br', 'tz')
     def __init__(s, e, lo, hi, cs=None, br=None):
         s.e = e; s.lo = lo; s.hi = hi; s.cs = cs if lo != hi else (frozenset([lo]), False)
+        s.tz = 0         # number of low bits known to be zero
         s.br = br        # optional bit representation: list of z3 Int terms in {0,1}, LSB first, e == sum(br[i] << i)
     def conc(s): return s.lo if s.lo == s.hi else None
     def __repr__(s): return 'V[%s,%s]' % (s.lo, s.hi) if s.lo != s.hi else 'V(%d)' % s.lo
@@ -336,7 +339,7 @@ def vite(c, a, b):
     if isinstance(b, V) and pa and b.conc() == 0: return vite(c, a, NULL)
     if isinstance(a, PtrInt) and isinstance(b, PtrInt):
         return PtrInt(alts=[(gand(c, g), o, f) for g, o, f in a.alts] + [(gand(z3.Not(c), g), o, f) for g, o, f in b.alts])
-    raise Unsupported('merge of %r / %r' % (a, b))
+    raise Unsupported('merge of incompatible values %s / %s' % (type(a).__name__, type(b).__name__))
 
 
 _E = frozenset()
@@ -380,6 +383,11 @@ _PYOP = {'and': lambda x, y: x & y, 'or': lambda x, y: x | y, 'xor': lambda x, y
 
 def binop(op, a, b, w):
     r = _binop(op, a, b, w)
+    if isinstance(r, V) and isinstance(a, V) and isinstance(b, V) and r.lo != r.hi:
+        if op == 'shl' and b.lo == b.hi: r.tz = min(a.tz + b.lo, w)
+        elif op == 'mul' and b.lo == b.hi and b.lo > 0 and b.lo & (b.lo - 1) == 0: r.tz = min(a.tz + b.lo.bit_length() - 1, w)
+        elif op == 'mul' and a.lo == a.hi and a.lo > 0 and a.lo & (a.lo - 1) == 0: r.tz = min(b.tz + a.lo.bit_length() - 1, w)
+        elif op in ('or', 'xor', 'add'): r.tz = min(a.tz if a.lo != a.hi or a.lo else w, b.tz if b.lo != b.hi or b.lo else w)
     if isinstance(r, V) and r.cs is None and isinstance(a, V) and isinstance(b, V):
         M_ = 1 << w
         if b.lo == b.hi and a.cs is not None and op in _PYOP: r.cs = _map_cs(a, lambda v: _PYOP[op](v, b.lo) % M_)
@@ -465,11 +473,7 @@ def _binop(op, a, b, w):
             sa_, sb_ = support(a), support(b)
             # refine: value of the form t * 2^k has its low k bits clear
             def low_clear(x):
-                e = x.e
-                if z3.is_mul(e) and e.num_args() == 2 and z3.is_int_value(e.arg(0)):
-                    c = e.arg(0).as_long()
-                    if c > 0 and c & (c - 1) == 0: return c - 1
-                return 0
+                return (1 << x.tz) - 1
             if (sa_ & ~low_clear(a)) & (sb_ & ~low_clear(b)) == 0:
                 return V(a.e + b.e, a.lo + b.lo, a.hi + b.hi)
         ww = max(a.hi.bit_length(), b.hi.bit_length(), 1)
@@ -754,12 +758,14 @@ class Exec:
         M = s.M; rty = M.res(ty)
         if rty.k not in ('int', 'ptr'): raise Unsupported('load of %r' % rty)
         n = M.sizeof(rty); isptr = rty.k == 'ptr'
-        res = None
+        res = None; dead = False
         for g, x in s.targets(p):
-            if not s.check_access(st, g, x, n, what): continue
+            if not s.check_access(st, g, x, n, what):
+                dead = gor(dead, g); continue         # the obligation is recorded; execution does not continue past a faulting access
             v = s._load1(st, x, n, isptr)
             res = v if res is None else vite(g, v, res) if not isinstance(g, bool) else (v if g else res)
-        if res is None: return NULL if isptr else s.fresh_int('oob_load', 0, (1 << (8 * n)) - 1)
+        if dead is not False: st.guard = gand(st.guard, gnot(dead))
+        if res is None: return NULL if isptr else C(0)
         return res
 
     def candidates(s, st, p, n):
@@ -777,7 +783,7 @@ class Exec:
         sel = sorted(c for c in cs[0] if lo <= c <= hi)
         if cs[1]:
             # the offset may also be "something else" (e.g. an uninitialised cell): one solver query decides
-            sv = z3.Solver(); sv.set('timeout', 20000)
+            sv = z3.Solver(); sv.set('timeout', 1000)
             sv.add(*s.assumes)
             if st.guard is not True: sv.add(st.guard)
             sv.add(*[p.off.e != c for c in cs[0]])
@@ -790,7 +796,7 @@ class Exec:
     def _infeasible(s, st, cond):
         sv = getattr(s, '_isolver', None)
         if sv is None:
-            sv = s._isolver = z3.Solver(); sv.set('timeout', 20000); s._inass = 0
+            sv = s._isolver = z3.Solver(); sv.set('timeout', 1500); s._inass = 0
         if s._inass < len(s.assumes):
             sv.add(*s.assumes[s._inass:]); s._inass = len(s.assumes)
         extra = [x for x in (st.guard, cond) if x is not True]
@@ -827,7 +833,8 @@ class Exec:
         if rty.k not in ('int', 'ptr'): raise Unsupported('store of %r' % rty)
         n = M.sizeof(rty)
         for g, x in s.targets(p):
-            if not s.check_access(st, g, x, n, what): continue
+            if not s.check_access(st, g, x, n, what):
+                st.guard = gand(st.guard, gnot(g)); continue
             if x.obj in s.readonly:
                 s.oblig.append((gand(st.guard, g), 'write to constant object %s: %s' % (x.obj, what), 'mem')); continue
             s._store1(st, x, n, v, g)
@@ -1069,6 +1076,7 @@ class Exec:
     def exec_block(s, f, st, rets, depth):
         M = s.M; regs = st.regs
         for ins in f['blocks'][st.block]:
+            if st.guard is False: return []          # path ended (faulting access / non-returning call)
             s.steps += 1
             p = s.parsed(ins); k = p[0]
             if k == 'phi': continue
@@ -1084,7 +1092,9 @@ class Exec:
                 v = s.val(st, ty, tok)
                 if op in ('zext', 'bitcast'): regs[dst] = v
                 elif op == 'sext':
-                    sv = sgn(v, fb); regs[dst] = norm(sv.e, sv.lo, sv.hi, to.bits)
+                    sv = sgn(v, fb); r_ = norm(sv.e, sv.lo, sv.hi, to.bits)
+                    if r_.lo != r_.hi and r_ is not v: r_.tz = v.tz
+                    regs[dst] = r_
                 elif op == 'trunc':
                     if isinstance(v, PtrInt): raise Unsupported('trunc of pointer-derived integer')
                     if 0 <= v.lo and v.hi < (1 << to.bits): r_ = v
@@ -1092,12 +1102,13 @@ class Exec:
                     else:
                         r_ = norm(v.e, v.lo, v.hi, to.bits)
                         if r_.cs is None and v.cs is not None: r_.cs = _map_cs(v, lambda x, m_=(1 << to.bits): x % m_)
+                        if r_.lo != r_.hi: r_.tz = min(v.tz, to.bits)
                     regs[dst] = r_
                 elif op == 'ptrtoint':
                     if isinstance(v, Ptr): regs[dst] = PtrInt(v.obj, v.off) if v.obj is not None else C(0)
                     elif isinstance(v, PSel) and all(isinstance(x, Ptr) for g, x in v.alts):
                         regs[dst] = PtrInt(alts=[(g, x.obj, x.off) for g, x in v.alts])
-                    else: raise Unsupported('ptrtoint of %r' % (v,))
+                    else: raise Unsupported('ptrtoint of a %s' % type(v).__name__)
                 else: raise Unsupported(op)
             elif k == 'gep':
                 regs[p[1]] = s.gep(st, p[2], p[3])
@@ -1246,6 +1257,8 @@ class Exec:
         if callee.startswith('@llvm.memset'):
             d = s.val(st, *args[0]); v = s.val(st, *args[1]); n = s.val(st, *args[2])
             return s.memset(st, d, v, n, '%s: %s' % (f['name'], callee))
+        if callee.startswith('@llvm.trap'):
+            s.oblig.append((st.guard, 'reached __builtin_trap (assertion) in %s' % f['name'], 'trap')); st.guard = False; return
         raise Unsupported('intrinsic %s' % callee)
 
     def memcpy(s, st, d, src, n, what):
